@@ -429,3 +429,67 @@ mut('C11', 'duplicate-code', EXC,
     "class IncorrectFixVersion(TemplateException):\n    code = 110")
 mut('C11', 'missing-template', EXC,
     "    template = 'incorrect_jira_project.md'", "    template = 'incorrect_project.md'")
+
+# ------------------------------------------------------------------- C07
+mut('C07', 'bypass-unprivileged', COMMANDS,
+    '        "Bypass the Jira issue check",\n        privileged=True,',
+    '        "Bypass the Jira issue check",\n        privileged=False,')
+mut('C07', 'bypass-flag-dropped', COMMANDS,
+    '        "Bypass the pull request peers\' approval",\n        privileged=True,\n',
+    '        "Bypass the pull request peers\' approval",\n')
+mut('C07', 'approve-not-authored', COMMANDS,
+    '        authored=True,\n        default=defaults.get("approve", False)',
+    '        default=defaults.get("approve", False)')
+mut('C07', 'priv-check-after-handler', REACTOR,
+    "            if option.privileged and not privileged:\n                raise NotPrivileged(key)\n\n            if option.authored and not authored:\n                raise NotAuthored(key)\n\n            # Everything is okay, apply the option\n            option.handler(job, *args)\n",
+    "            if option.authored and not authored:\n                raise NotAuthored(key)\n\n            # Everything is okay, apply the option\n            option.handler(job, *args)\n            if option.privileged and not privileged:\n                raise NotPrivileged(key)\n")
+mut('C07', 'priv-check-or', REACTOR,
+    "            if option.privileged and not privileged:\n                raise NotPrivileged(key)\n\n            if option.authored",
+    "            if option.privileged and not (privileged or authored):\n                raise NotPrivileged(key)\n\n            if option.authored")
+mut('C07', 'authored-check-dropped', REACTOR,
+    "            if option.authored and not authored:\n                raise NotAuthored(key)\n\n", "")
+mut('C07', 'command-priv-dropped', REACTOR,
+    "        if command.privileged and not privileged:\n            raise NotPrivileged(key)\n\n", "")
+mut('C07', 'unknown-option-ignored', REACTOR,
+    "            if option is None:\n                raise NotFound(key)\n            if not isinstance(option, Option):",
+    "            if option is None:\n                continue\n            if not isinstance(option, Option):")
+mut('C07', 'author-may-bypass', GWF,
+    "        privileged = author in admins and author != pr_author\n        authored = author == pr_author",
+    "        privileged = author in admins\n        authored = author == pr_author")
+mut('C07', 'authored-is-admin', GWF,
+    "        authored = author == pr_author\n",
+    "        authored = author in admins\n")
+mut('C07', 'commands-priv-any-admin', GWF,
+    "        privileged = author in admins and author != pr_author\n        text = comment.text\n        try:\n            reactor.handle_commands",
+    "        privileged = author in admins or author == pr_author\n        text = comment.text\n        try:\n            reactor.handle_commands")
+mut('C07', 'notprivileged-swallowed', GWF,
+    "        except NotPrivileged as err:\n            raise messages.NotEnoughCredentials(\n                active_options=job.active_options, command=err.keyword,\n                author=author, self_pr=(author == pr_author), comment=text\n            ) from err\n        except NotAuthored",
+    "        except NotPrivileged as err:\n            LOG.debug(err)\n        except NotAuthored")
+mut('C07', 'direct-option-write', GWF,
+    "    LOG.debug(\"Running with active options: %r\", job.active_options)\n",
+    "    LOG.debug(\"Running with active options: %r\", job.active_options)\n"
+    "    if job.pull_request.author in admins_of(job):\n"
+    "        job.settings['bypass_build_status'] = True\n")
+mut('C07', 'slash-regex-loses-slash', REACTOR,
+    "r'^/[\\w=]+([\\s,.\\-:;|+]+/[\\w=]+)*\\s*$'", "r'^/?[\\w=]+([\\s,.\\-:;|+]+/[\\w=]+)*\\s*$'")
+mut('C07', 'prefix-test-dropped', REACTOR,
+    "        if raw.startswith(prefix):\n            canonical_raw = raw\n            canonical_prefix = prefix\n        elif re.match(r'^/[\\w=]+",
+    "        if prefix in raw:\n            canonical_raw = raw\n            canonical_prefix = prefix\n        elif re.match(r'^/[\\w=]+")
+mut('C07', 'cmdline-default-crossed', COMMANDS,
+    'default=defaults.get("bypass_peer_approval", False))',
+    'default=defaults.get("create_pull_requests", False))')
+mut('C07', 'option-default-true', COMMANDS,
+    'default=defaults.get("bypass_commit_size", False))',
+    'default=defaults.get("bypass_commit_size", True))')
+mut('C07', 'option-tuple-swapped', REACTOR,
+    "        cls.set_callback(key, Option(set_option, default, help_, privileged,\n                                     authored))",
+    "        cls.set_callback(key, Option(set_option, default, help_, authored,\n                                     privileged))")
+mut('C07', 'job-with-preset-options', GWF,
+    "        PullRequestJob(\n            bert_e=job.bert_e,\n            pull_request=job.project_repo.get_pull_request(int(parent_id))\n        )",
+    "        PullRequestJob(\n            bert_e=job.bert_e, settings=dict(job.settings.maps[0]),\n            pull_request=job.project_repo.get_pull_request(int(parent_id))\n        )")
+mut('C07', 'options-from-other-pr-text', GWF,
+    "        text = comment.text\n        try:\n            reactor.handle_options(job, text, prefix, privileged, authored)",
+    "        text = job.pull_request.description\n        try:\n            reactor.handle_options(job, text, prefix, privileged, authored)")
+eq(['C07'], 'inline-flags', GWF,
+   "        privileged = author in admins and author != pr_author\n        authored = author == pr_author\n        text = comment.text\n        try:\n            reactor.handle_options(job, text, prefix, privileged, authored)",
+   "        text = comment.text\n        try:\n            reactor.handle_options(job, text, prefix,\n                                   author != pr_author and author in admins,\n                                   pr_author == author)")
